@@ -480,6 +480,63 @@ func genC18(c *lp.Ctx) {
 	}
 }
 
+// genC14history: typed getters after Unmarshal into an instance that already
+// served typed gets on other data (a stale cache would answer from the old leaves).
+func genC14history(c *lp.Ctx) {
+	n := c.Pick(80, 300)
+	encs := []string{"i8", "i16", "i32", "i64"}
+	for it := 0; it < n; it++ {
+		enc := encs[c.Rng.Intn(4)]
+		a := NewCase(c.Rng, gen.Any(c.Rng, 120), "", enc)
+		b := NewCase(c.Rng, gen.Any(c.Rng, 120), "", enc)
+		if len(a.Keys) == 0 || len(b.Keys) == 0 {
+			continue
+		}
+		// stream of B
+		if lp.Exec(b.Line()) != "ok" {
+			continue
+		}
+		bufB := currentStream()
+		if bufB == nil {
+			continue
+		}
+		c.Case("hist|"+a.Key()+"|"+b.Key(), true)
+		if !build(c, a) {
+			continue
+		}
+		c.Hit("history:typed-get,unmarshal,typed-get")
+		for i, k := range a.RKeys {
+			if i < 5 {
+				c.Do("trie.get" + enc + " " + lp.XS(k))
+			}
+		}
+		if got := c.Do("trie.unmarshal " + lp.X(bufB)); got != "ok" {
+			b.viol(c, "load of a valid stream", "trie.unmarshal", "ok", got)
+			continue
+		}
+		for _, q := range gen.Queries(c.Rng, b.Keys, 30) {
+			x := lp.XS(q)
+			g := c.Do("trie.get " + x)
+			t := c.Do("trie.get" + enc + " " + x)
+			want := "nf 0"
+			if strings.HasPrefix(g, "f x") {
+				bs := unhex(g[2:])
+				var v int64
+				for j := len(bs) - 1; j >= 0; j-- {
+					v = v<<8 | int64(bs[j])
+				}
+				sh := uint(64 - 8*len(bs))
+				v = v << sh >> sh
+				want = fmt.Sprintf("f %d", v)
+			}
+			if t != want {
+				c.Violate(lp.Violation{What: "typed getter agrees with Get after Unmarshal into a used instance",
+					Script: []string{a.Line(), "trie.get" + enc + " " + lp.XS(a.RKeys[0]), "trie.unmarshal " + lp.X(bufB), "trie.get" + enc + " " + x}, Expected: want, Got: t})
+			}
+		}
+	}
+}
+
 func (cs *Case) checkStat(c *lp.Ctx, s string) {
 	var levelCnt, keys, nodes int
 	var lv string
@@ -618,6 +675,7 @@ func init() {
 	lp.RegisterGen("C10", genC10)
 	lp.RegisterGen("C13", genC13)
 	lp.RegisterGen("C14", genC14)
+	lp.RegisterGen("C14", genC14history)
 	lp.RegisterGen("C18", genC18)
 	lp.RegisterGen("C19", genC19)
 	lp.RegisterGen("C19", func(c *lp.Ctx) {
